@@ -16,21 +16,21 @@ GT = 'tdda.referencetest.gentest.'
 def check(run):
     p = run.prog
     roots = [p.fn(r) for r in ROOTS]
-    ief.run_ief(run, 'C11', roots, triage=triage.IEF, noreturn=('self.fail',))
-    run.floor('C11-IEF', run.units['ief_functions_checked'], 100)
-    exc(run, p)
+    run.attempt(ief.run_ief, run, 'C11', roots, triage=triage.IEF, noreturn=('self.fail',))
+    run.floor('C11-IEF', run.units.get('ief_functions_checked', 0), 100)
+    run.attempt(exc, run, p)
     from . import gentest_script
-    gentest_script.run_rule(run, p, 'C11')
-    template(run, p, 'C11')
-    effects(run, p)
-    mustemit(run, p, 'C11-MUSTEMIT')
-    joinrepr(run, p)
-    attrs(run, p)
-    snapshot(run, p)
-    encfallback(run, p)
-    globs(run, p)
+    run.attempt(gentest_script.run_rule, run, p, 'C11')
+    run.attempt(template, run, p, 'C11')
+    run.attempt(effects, run, p)
+    run.attempt(mustemit, run, p, 'C11-MUSTEMIT')
+    run.attempt(joinrepr, run, p)
+    run.attempt(attrs, run, p)
+    run.attempt(snapshot, run, p)
+    run.attempt(encfallback, run, p)
+    run.attempt(globs, run, p)
     from .c04 import split
-    split(run, p, p.cls('FilesComparison'))
+    run.attempt(split, run, p, p.cls('FilesComparison'))
     run.rules['C11-SPLIT'] = run.rules.pop('C04-SPLIT') + (' (the generated stdout/stderr tests compare the captured output, a raw string that '
                                                            'keeps its carriage returns, with a reference read in text mode: only str.splitlines treats \\r\\n, \\r and \\n alike)')
     for o in run.obs:
